@@ -14,7 +14,7 @@ Open Scope string_scope.
    Proved part: every term of the fragment [wfp Sg [] t] - EVERY operator except Pow (refuted),
    with: constructor arities, constants in range, good symbol names declared in Sg, string
    constants printable ASCII without backslash (open finding), array values assigned at pairwise
-   distinct Bool/Int/BV/String constants and whose printed sort reads back with the SAME index
+   distinct Bool/Int/Real/BV/String constants (Real in lowest terms) and whose printed sort reads back with the SAME index
    sort (core/Sem.v's array values are canonical outside their index sort, so `as const` must
    be read at that sort; excludes e.g. a declared sort printed as "Bool"), and the arguments of Iff / extract / rotate / extend
    typed by tc and inside C01's fragment okt - every signature, every well-formed
@@ -139,6 +139,49 @@ Theorem C07_script_wellformed_example4 :
     [["("; "set-logic"; "ALL"; ")"]; ["("; "declare-sort"; "S"; "0"; ")"];
      ["("; "declare-fun"; "a"; "("; ")"; "("; "Array"; "Int"; "("; "Array"; "Int"; "S"; ")"; ")"; ")"]].
 Proof. exact ex_term4_script. Qed.
+
+(* TypesOracle COMPLETENESS (reusing C12's Oracles_proofs.get_types_def; models/SmtScript.v now uses
+   models/Oracles.v's get_types): every sort that has to be read - an occurring sort (sort of a
+   symbol, part of a function signature, sort of a bound variable, index sort of an array value,
+   sort of a constant) or the sort of an array value, anywhere in t - reads back over the signature
+   the script's declarations build, provided it is well-formed (positive widths, no function sort
+   inside) and the declared sort names read back and are pairwise distinct: every custom sub-sort
+   of it is reported by the oracle, hence declared, with its arity. *)
+Theorem C07_needed_sorts_read_back : forall t,
+  Forall sort_decl_ok (sort_decls t) -> NoDup (map fst (sort_decls t)) ->
+  forall s, need s t -> sort_wf s -> rb (script_sig t) s.
+Proof. exact needed_sorts_read_back. Qed.
+Print Assumptions C07_needed_sorts_read_back.
+
+(* ... so the `sorts read back' hypotheses of C07_script_wellformed_partial are discharged.  What
+   remains: the logic / sort / symbol NAMES read back and are pairwise distinct, function symbols
+   have parameters, the sorts to be read are well-formed, the formula is Bool-typed, and the
+   per-node conditions of wfp and srt - given in the form `they hold as soon as the needed sorts
+   read back' ([rbs t]), which is what the theorem establishes on the way. *)
+Theorem C07_script_wellformed : forall dag logic t,
+  sym_name logic <> None ->
+  Forall sort_decl_ok (sort_decls t) -> NoDup (map fst (sort_decls t)) ->
+  Forall (fun v : var => good_name (fst v) = true /\ match snd v with TFun ps _ => ps <> [] | _ => True end) (fv t) ->
+  NoDup (map fst (fv t)) ->
+  (forall s, need s t -> sort_wf s) ->
+  (rbs t -> wfp (script_sig t) [] t) -> (rbs t -> srt (script_sig t) t) -> tc t = Some TBool ->
+  std_script_ok (script_of dag logic t) = true.
+Proof. exact script_wellformed. Qed.
+Print Assumptions C07_script_wellformed.
+Theorem C07_script_wellformed_hypotheses_satisfiable2 :
+  Forall (fun v : var => good_name (fst v) = true /\ match snd v with TFun ps _ => ps <> [] | _ => True end) (fv ex_term4) /\
+  (rbs ex_term4 -> wfp (script_sig ex_term4) [] ex_term4) /\ (rbs ex_term4 -> srt (script_sig ex_term4) ex_term4).
+Proof. exact ex_term4_script_hyps. Qed.
+
+(* ONE statement for the term level: under one set of hypotheses, for both printers, the text is
+   well-sorted at the sort of the formula AND has the value of the formula under every well-formed
+   interpretation. *)
+Theorem C07_print_wellsorted_and_sound : forall Sg I t ty,
+  wfp Sg [] t -> srt Sg t -> tc t = Some ty -> wf_interp I ->
+  (std_sort Sg (print_tree t) = Some ty /\ std_eval Sg I (print_tree t) = Some (eval I t)) /\
+  (std_sort Sg (print_dag t) = Some ty /\ std_eval Sg I (print_dag t) = Some (eval I t)).
+Proof. exact print_wellsorted_and_sound. Qed.
+Print Assumptions C07_print_wellsorted_and_sound.
 
 (* the two witnesses that refuted script well-formedness before the repairs of 2026-09 (a parametric
    sort used at two instances; custom sorts occurring only under a function application / as the
